@@ -122,8 +122,18 @@ RatPow(x, e) ==
     IF e >= 0 THEN << IPowG(x.n, e), IPowG(x.d, e) >>
     ELSE << IPowG(x.d * Sgn(x.n), -e), IPowG(Abs(x.n), -e) >>
 
+\* exact square roots of small perfect squares (float pow is exact on them)
+IsSquare(n) == n >= 0 /\ \E r \in 0..180 : r * r = n
+Sqrt(n) == CHOOSE r \in 0..180 : r * r = n
+RECURSIVE NumPow(_, _)
 NumPow(a, b) ==
     IF ~(Small(a) /\ Small(b)) THEN Unrep
+    ELSE IF b.d = 2 THEN
+        \* x ** (k/2): a float; modelled when x is a non-negative perfect square (k # 0 odd)
+        (IF a.n > 0 /\ IsSquare(a.n) /\ IsSquare(a.d)
+         THEN LET r == NumPow(FltV(Sqrt(a.n), Sqrt(a.d)), FltV(b.n, 1)) IN
+              IF IsNum(r) /\ Dyadic(a) THEN r ELSE Unrep
+         ELSE Unrep)
     ELSE IF b.d # 1 THEN Unrep                         \* irrational / complex territory
     ELSE LET e == b.n IN
     IF Abs(e) > 12 THEN Unrep
